@@ -36,12 +36,32 @@ def oracle(ctx, case, res, real):
     parser = cli.get_argument_parser()
     _, in_args = pipe.inputs_of(case)
     args = parser.parse_args(list(argv) + in_args)
-    ads, _ = cli.adapters_from_args(args)
+    import logging
+    logging.disable(logging.CRITICAL)
+    try:
+        ads, _ = cli.adapters_from_args(args)
+    finally:
+        logging.disable(logging.NOTSET)
     action = None if args.action == "none" else args.action
-    outs = {rid(r[0]): r for fn, side, recs in pipeprop.output_roles(case, real) for r in recs}
+    # no filtering option is allowed here, so the output holds the reads in input order (a --rename template may change the ids)
+    recs_in_order = [r for fn, side, recs in pipeprop.output_roles(case, real) for r in recs]
     rename = "--rename" in argv
+    if len(recs_in_order) != len(case["reads1"]):
+        ctx.failures.append(Failure("C16/read-missing", "the output does not hold one record per input read", inp, len(recs_in_order), len(case["reads1"])))
+        return
+    if "{name" in argv[argv.index("-o") + 1]:
+        # demultiplexed: several files, so the order across files is not the input order; find the records by id
+        if rename:
+            return
+        by_id = {rid(r[0]): r for r in recs_in_order}
+        if any(rid(n) not in by_id for n, _, _ in case["reads1"]):
+            ctx.failures.append(Failure("C16/read-missing", "read missing from the output", inp, sorted(by_id), None))
+            return
+        outs = {i: by_id[rid(n)] for i, (n, _, _) in enumerate(case["reads1"])}
+    else:
+        outs = {i: r for i, r in enumerate(recs_in_order)}
     nrc = 0
-    for name, s, q in case["reads1"]:
+    for ri, (name, s, q) in enumerate(case["reads1"]):
         cutter = AdapterCutter(ads, args.times, action, False)
         fwd, fm = cutter.match_and_trim(dnaio.SequenceRecord(name, s, q))
         rev, rm = cutter.match_and_trim(dnaio.SequenceRecord(name, s, q).reverse_complement())
@@ -49,10 +69,7 @@ def oracle(ctx, case, res, real):
         use_rc = bool(rm) and rsc > fs
         exp = rev if use_rc else fwd
         nrc += use_rc
-        got = outs.get(rid(name))
-        if got is None:
-            ctx.failures.append(Failure("C16/read-missing", "read missing from the output", inp, name, None))
-            continue
+        got = outs[ri]
         exp_name = name + (" rc" if use_rc and not rename else "")
         if rename:
             tmpl = argv[argv.index("--rename") + 1]
